@@ -352,9 +352,15 @@ def run_fault_case(case, rec=None):
         # (also with core properties present: a part of another declared type in their place must not be doubled)
         if True:
             with sut("C16:core-properties-after-open:" + fk):
+                was = prs.core_properties.author if any(f[0] == "no_core" for f in applied) else None
                 prs.core_properties.author = "verif"
                 out4 = io.BytesIO()
                 prs.save(out4)
+            if any(f[0] == "no_core" for f in applied) and was != "":
+                raise Violation("C16:core-properties-after-open:not-its-own:%s" % fk,
+                                "%s with %s: the deck came without core properties, yet its author reads %r right after "
+                                "opening (decks opened earlier in this process had theirs set to 'verif')"
+                                % (deck, applied, was))
             o4 = O.Pkg.read(out4.getvalue())
             r1, _m1, _d1 = o1.reachable()
             r4, _m4, _d4 = o4.reachable()
@@ -390,6 +396,35 @@ def run_fault_case(case, rec=None):
                 got2 = [O.c14n(s.part.blob) for s in prs2.slides]
             if got2 != want:
                 raise Violation("C16:slide-order-after-reopen:%s" % fk, "%s with %s" % (deck, applied))
+            # the opened deck is then used: the bytes of an image part the package declares with an unknown content
+            # type are added as a picture (the part itself is kept as an opaque part, the picture gets its own)
+            for f in applied:
+                if f[0] != "unknown_ct" or not f[1].lower().startswith("/ppt/media/") or f[1] not in pkg.members:
+                    continue
+                blob = pkg.members[f[1]]
+                try:
+                    from PIL import Image as _PI
+                    if _PI.open(io.BytesIO(blob)).format not in ("PNG", "JPEG", "GIF", "BMP", "TIFF"):
+                        continue
+                except Exception:
+                    continue
+                if not len(prs.slides):
+                    continue
+                with sut("C16:add-picture-of-unknown-typed-image:" + fk):
+                    pic = prs.slides[0].shapes.add_picture(io.BytesIO(blob), 0, 0)
+                    back = pic.image.blob
+                    out5 = io.BytesIO()
+                    prs.save(out5)
+                o5 = O.Pkg.read(out5.getvalue())
+                if back != blob or o5.members.get(f[1]) != blob or o5.dups:
+                    raise Violation("C16:picture-of-unknown-typed-image:%s" % fk,
+                                    "%s with %s: picture made from the bytes of %s returns %s bytes; part kept: %s; "
+                                    "duplicates %s" % (deck, applied, f[1], "the same" if back == blob else "other",
+                                                       o5.members.get(f[1]) == blob, o5.dups[:3]))
+                pic._element.getparent().remove(pic._element)
+                if rec is not None:
+                    rec.cls("picture-of-unknown-typed-image")
+                break
             # the opened deck is then used: slides added to it must not displace the ones it came with
             if any(f[0] == "rename" for f in applied):
                 with sut("C16:add-slides-after-open:" + fk):
